@@ -12,13 +12,13 @@ from symex.poly import pall_in, pand, pconcat, pcontains, peq, pimplies, plen, p
 PROPERTY = "C06"
 BOUNDS = {
     "quick": {"values": "1-2 values of <= 3 characters, every 8-bit code point except CR/LF", "ints": "unbounded solver ints rendered with <= 6 digits",
-              "normal_form_text": "<= 4 characters"},
+              "normal_form_text": "<= 4 characters", "dates": "every valid calendar date/time 1000-01-01..9999-12-31 at second resolution, UTC-aware (12 months) and naive (2 months quick / 12 thorough)"},
     "thorough": {"values": "<= 5 characters", "normal_form_text": "<= 5 characters"},
 }
-STUBS = ["none (token keys are concrete)"]
+STUBS = ["HTTP dates: the value is a datetime subclass whose calendar fields are solver ints and whose timetuple() is computed with the proleptic Gregorian weekday formula; datetime.datetime(...) on solver ints is a contract stub (range checks incl. month lengths) returning an object that carries the fields; email.utils.format_datetime / parsedate_to_datetime / _parsedate_tz are interpreted from the stdlib source. Each path is replayed natively with real datetime objects"]
 ASSUMPTIONS = ["values exclude CR/LF; option-header values additionally exclude the literal %22 (documented to decode to a quote)",
                "ETags are non-empty and contain no double quote", "0 <= start < stop for ranges, as the property states"]
-OUTSIDE = ["HTTP dates / If-Range dates (email.utils, datetime: C)", "Basic credentials (base64 + UTF-8)", "code points above U+00FF", "longer values"]
+OUTSIDE = ["datetimes with a non-UTC offset (datetime.astimezone: C), If-Range dates", "Basic credentials (base64 + UTF-8)", "code points above U+00FF", "longer values"]
 
 NOCRLF = [10, 13]
 
@@ -288,6 +288,70 @@ def body_normal_form(I, X, which="list", n=3):
     raise ValueError(which)
 
 
+import datetime as _dtmod
+
+
+class SymDatetime(_dtmod.datetime):
+    """a datetime whose calendar fields are solver integers (a real datetime subclass, so that
+    isinstance tests in the code under test behave): timetuple() is computed from the fields
+    with the proleptic Gregorian weekday formula; tzinfo is UTC or None"""
+
+    __symex_carrier__ = True
+
+    def __new__(cls, fields, aware=True):
+        self = super().__new__(cls, 2000, 1, 1, tzinfo=_dtmod.timezone.utc if aware else None)
+        self.f = tuple(fields)
+        return self
+
+    def timetuple(self):
+        y, m, d, hh, mi, ss = self.f
+        before = 0
+        for k, n in enumerate((31, 28, 31, 30, 31, 30, 31, 31, 30, 31, 30, 31), start=1):
+            if m > k:
+                before = before + n
+        leap = (y % 4 == 0) & ((y % 100 != 0) | (y % 400 == 0))
+        if (m > 2) and leap:
+            before = before + 1
+        y1 = y - 1
+        ordinal = d + before + 365 * y1 + y1 // 4 - y1 // 100 + y1 // 400
+        return (y, m, d, hh, mi, ss, (ordinal + 6) % 7, before + d, -1)
+
+    def replace(self, tzinfo=None):
+        return SymDatetime(self.f, aware=tzinfo is not None)
+
+
+def body_http_date(I, X, aware=True, month=1):
+    """http_date -> parse_date returns the datetime (second resolution, UTC; naive input is
+    taken as UTC), for every valid calendar date in the years 1000..9999"""
+    from werkzeug import http
+
+    y = X.int("y", 1000, 9999)
+    m = month   # enumerated (12 obligations); everything else is solver-quantified
+    d = X.int("d", 1, 31)
+    hh, mi, ss = X.int("hh", 0, 23), X.int("mi", 0, 59), X.int("ss", 0, 59)
+    leap = pand(y % 4 == 0, por(y % 100 != 0, y % 400 == 0))
+    dim = 31
+    if bool(por(peq(m, 4), peq(m, 6), peq(m, 9), peq(m, 11))):
+        dim = 30
+    elif bool(peq(m, 2)):
+        dim = 29 if bool(leap) else 28
+    X.assume(d <= dim)
+    if X.symbolic:
+        dt = SymDatetime((y, m, d, hh, mi, ss), aware)
+    else:
+        dt = _dtmod.datetime(y, m, d, hh, mi, ss, tzinfo=_dtmod.timezone.utc if aware else None)
+    text = I.call(http.http_date, (dt,))
+    back = I.call(http.parse_date, (text,))
+    if back is None:
+        return False, {"text": text, "back": None}
+    f = getattr(back, "fields", None) or (back.year, back.month, back.day, back.hour, back.minute, back.second)
+    tz_ok = isinstance(back.tzinfo, _dtmod.tzinfo) and back.tzinfo.utcoffset(None) == _dtmod.timedelta(0)
+    ok = pand(tz_ok, *[peq(a, b) for a, b in zip(f, (y, m, d, hh, mi, ss))])
+    # RFC 9110 IMF-fixdate shape: 29 characters, day name and ' GMT'
+    ok = pand(ok, plen(text) == 29, peq(text[-4:], " GMT"), peq(text[3:5], ", "))
+    return ok, {"text": text}
+
+
 def make_stubs():
     from harness.c07 import make_stubs as m
 
@@ -296,6 +360,10 @@ def make_stubs():
 
 def obligations(tier, seed):
     out = []
+    for aware in (True, False):
+        for month in (range(1, 13) if aware or tier != "quick" else (2, 12)):
+            out.append({"name": f"http_date[aware={aware},month={month}]", "body": "body_http_date", "params": {"aware": aware, "month": month},
+                        "opts": {"budget_s": 900, "ctx": {"bv_ints": True, "max_digits": 6}}, "witness": aware and month == 3})
     quick = tier == "quick"
     N = [0, 1, 2, 3] if quick else [0, 1, 2, 3, 4, 5]
     ctx = {"max_cp": 0xFF, "bv_ints": True}
